@@ -10,7 +10,7 @@ package basicauth
 //@ func GetHtpasswdMatcher
 //@   ensures [lock_balance] held(htpasswordsMu) == old(held(htpasswordsMu))
 
-//@ unit htpasswd_cache props=C03,C08 filter=`basicauth\.GetHtpasswdMatcher$`
+//@ unit htpasswd_cache frames=on props=C03,C08 filter=`basicauth\.GetHtpasswdMatcher$`
 //@ // The user table a site authenticates against is the one loaded from ITS password file: the process-wide cache is keyed
 //@ // by the root-joined path, the file opened is that same path, and the matcher returned comes from that entry.
 //@ spec openedName(t int) string
@@ -33,7 +33,7 @@ package basicauth
 //@ define key() string = filepath.Join(siteRoot, old(filename))
 //@ func GetHtpasswdMatcher
 //@   requires parsedOK == 0
-//@   modifies ghost:parsedOK, G:htpasswords, MV:map[string]map[string]github.com/tmpim/casket/caskethttp/basicauth.PasswordMatcher, MD:map[string]map[string]github.com/tmpim/casket/caskethttp/basicauth.PasswordMatcher, MV:map[string]github.com/tmpim/casket/caskethttp/basicauth.PasswordMatcher, MD:map[string]github.com/tmpim/casket/caskethttp/basicauth.PasswordMatcher, ghost:opens, ghost:held
+//@   modifies ghost:parsedOK, G:github.com/tmpim/casket/caskethttp/basicauth.htpasswords, MV:map[string]map[string]github.com/tmpim/casket/caskethttp/basicauth.PasswordMatcher, MD:map[string]map[string]github.com/tmpim/casket/caskethttp/basicauth.PasswordMatcher, MV:map[string]github.com/tmpim/casket/caskethttp/basicauth.PasswordMatcher, MD:map[string]github.com/tmpim/casket/caskethttp/basicauth.PasswordMatcher, ghost:opens, ghost:held
 //@   ensures [cached_under_joined_path] result1 == nil ==> (htpasswords != nil && has(htpasswords, key()) && htpasswords[key()] != nil)
 //@   ensures [matcher_from_this_files_table] result1 == nil ==> result0 == htpasswords[key()][username]
 //@   ensures [loads_the_joined_path] opens == old(opens) || (opens == old(opens) + 1 && openedName(old(opens)) == key())
@@ -42,7 +42,10 @@ package basicauth
 //@   // partial table behind, so the repaired file loads afterwards as in a fresh process)
 //@   ensures [only_fully_parsed_files_are_cached] forallT(k, string, (has(htpasswords, k) && !old(htpasswords != nil && has(htpasswords, k))) ==> (k == key() && parsedOK == 1))
 
-//@ unit basicauth_handler props=C03,C12,C19 filter=`BasicAuth\)\.ServeHTTP$`
+//@ unit basicauth_handler frames=on props=C03,C12,C19 filter=`BasicAuth\)\.ServeHTTP$`
+//@ // the replacer constructor only wraps the request body for {request_body}; nothing this handler reads (explicit frame-empty assumption)
+//@ extern github.com/tmpim/casket/caskethttp/httpserver.NewReplacer
+//@   ensures result != nil
 //@ ghost calledNext int
 
 //@ extern invoke:(github.com/tmpim/casket/caskethttp/httpserver.Handler).ServeHTTP
@@ -67,6 +70,7 @@ package basicauth
 //@ define stable() bool = calledNext == old(calledNext) && r != nil && r.URL == old(r.URL) && r.URL != nil && r.URL.Path == old(r.URL.Path) && ret(0, r.BasicAuth()) == ret(0, old(r).BasicAuth()) && ret(1, r.BasicAuth()) == ret(1, old(r).BasicAuth()) && ret(2, r.BasicAuth()) == ret(2, old(r).BasicAuth())
 
 //@ func (BasicAuth).ServeHTTP
+//@   modifies ghost:calledNext
 //@   requires r != nil && r.URL != nil
 //@   ensures [deny] (old(r.Method) != "OPTIONS" && exists(i, 0, len(a.Rules), prot(i)) && !exists(i, 0, len(a.Rules), prot(i) && okCred(i))) ==> (result0 == 401 && calledNext == old(calledNext))
 //@   ensures [pass] !(old(r.Method) != "OPTIONS" && exists(i, 0, len(a.Rules), prot(i)) && !exists(i, 0, len(a.Rules), prot(i) && okCred(i))) ==> calledNext == old(calledNext) + 1
